@@ -39,6 +39,9 @@ type srcFS struct {
 	failPath string // ReadDir of this path fails with failErr
 	failErr  error
 	reads    int64
+	// failAfter, when set, delays the failing listing until it reports true
+	failAfter func() bool
+	lateFails int64
 }
 
 func (s *srcFS) ReadDir(p string) ([]os.FileInfo, error) {
@@ -53,6 +56,14 @@ func (s *srcFS) ReadDir(p string) ([]os.FileInfo, error) {
 		<-s.gate
 	}
 	if s.failErr != nil && p == s.failPath {
+		if s.failAfter != nil {
+			// the listing fails only once the loop has been killed by something else (bounded wait:
+			// if that never happens the listing simply fails)
+			for k := 0; k < 40000 && !s.failAfter(); k++ {
+				time.Sleep(50 * time.Microsecond)
+			}
+			atomic.AddInt64(&s.lateFails, 1)
+		}
 		return nil, s.failErr
 	}
 	return s.Inner.ReadDir(p0)
@@ -328,6 +339,16 @@ func runLoop(r *sup.CaseResult, rng *rand.Rand, cfg runCfg) {
 		failPath = pick(wantF)
 	case "dir-cb":
 		failPath = pick(wantD)
+	case "cb-then-readdir":
+		cands := map[string]bool{}
+		_, allD := expected(t, flt, true, true)
+		for d := range allD {
+			cands[d] = true
+		}
+		failPath = pick(cands)
+		if failPath != "" {
+			src.failPath = failPath
+		}
 	case "readdir":
 		// a directory that is descended into
 		cands := map[string]bool{}
@@ -352,9 +373,25 @@ func runLoop(r *sup.CaseResult, rng *rand.Rand, cfg runCfg) {
 	}
 	var firstMu sync.Mutex
 	firstTaken := false
+	cbOrder := 0
+	var bStarted, bVerdict int64
+	cbFirstErr := fmt.Errorf("injected-first-callback-%08x", rng.Uint32())
+	var loopRef atomic.Value // *fsloop.Loop, set once the loop runs
+	lateRecorded := func() bool {
+		l, _ := loopRef.Load().(*fsloop.Loop)
+		if l == nil || failErr == nil {
+			return false
+		}
+		for _, e := range l.Errors() {
+			if e != nil && (errors.Is(e, failErr) || strings.Contains(e.Error(), failErr.Error())) {
+				return true
+			}
+		}
+		return false
+	}
 	if cfg.Fault != "" && !scopeFault {
 		failErr = fmt.Errorf("injected-%s-%08x", cfg.Fault, rng.Uint32())
-		if cfg.Fault == "readdir" {
+		if cfg.Fault == "readdir" || cfg.Fault == "cb-then-readdir" {
 			src.failErr = failErr
 		}
 	}
@@ -389,6 +426,41 @@ func runLoop(r *sup.CaseResult, rng *rand.Rand, cfg runCfg) {
 				}
 				atomic.StoreInt64(&scopeFired, 1)
 			}
+			if cfg.Fault == "cb-then-readdir" {
+				firstMu.Lock()
+				nth := cbOrder
+				cbOrder++
+				firstMu.Unlock()
+				switch nth {
+				case 0: // A: fails once B is under way (bounded wait), which kills the loop
+					for k := 0; k < 20000 && atomic.LoadInt64(&bStarted) == 0; k++ {
+						time.Sleep(50 * time.Microsecond)
+					}
+					firstMu.Lock()
+					firstTaken = true
+					firstMu.Unlock()
+					return cbFirstErr
+				case 1: // B: keeps Wait() from returning until the late listing error has been recorded,
+					// or no producer goroutine is left that could still record it (bounded)
+					atomic.StoreInt64(&bStarted, 1)
+					for k := 0; k < 400; k++ {
+						if lateRecorded() {
+							atomic.StoreInt64(&bVerdict, 1)
+							break
+						}
+						if atomic.LoadInt64(&src.lateFails) > 0 && producersGone() {
+							if lateRecorded() {
+								atomic.StoreInt64(&bVerdict, 1)
+							} else {
+								atomic.StoreInt64(&bVerdict, 2)
+							}
+							break
+						}
+						time.Sleep(5 * time.Millisecond)
+					}
+					return nil
+				}
+			}
 			if cfg.Fault == "file-cb-first" {
 				firstMu.Lock()
 				mine := !firstTaken
@@ -420,6 +492,12 @@ func runLoop(r *sup.CaseResult, rng *rand.Rand, cfg runCfg) {
 		loop = fsloop.NewLoop(data, evScope)
 	} else {
 		loop = fsloop.NewLoop(data, nil)
+	}
+	if cfg.Fault == "cb-then-readdir" {
+		src.failAfter = func() bool {
+			l, _ := loopRef.Load().(*fsloop.Loop)
+			return l != nil && len(l.Errors()) > 0
+		}
 	}
 	done := make(chan struct{})
 	var errs []error
@@ -459,6 +537,7 @@ func runLoop(r *sup.CaseResult, rng *rand.Rand, cfg runCfg) {
 	}
 	go func() {
 		loop.Run("")
+		loopRef.Store(loop)
 		close(started)
 		loop.Wait()
 		errs = loop.Errors() // what a caller that waited for the loop gets to see
@@ -503,7 +582,35 @@ func runLoop(r *sup.CaseResult, rng *rand.Rand, cfg runCfg) {
 	for i := 0; i < 3; i++ {
 		runtime.Gosched()
 	}
-	if scopeFault {
+	if cfg.Fault == "cb-then-readdir" {
+		firstMu.Lock()
+		cbFailed := firstTaken
+		firstMu.Unlock()
+		judgeScopeFault(r, rec, cfg, wantF, wantD, errs, cbFailed)
+		has := func(want error) bool {
+			for _, e := range errs {
+				if e != nil && (errors.Is(e, want) || strings.Contains(e.Error(), want.Error())) {
+					return true
+				}
+			}
+			return false
+		}
+		wit := map[string]any{"cfg": cfg, "late_listing": failPath}
+		if cbFailed && !has(cbFirstErr) {
+			r.Violate("error-lost", fmt.Sprintf("the first file callback returned %v, which is not in Errors() = %v", cbFirstErr, errs), wit)
+		}
+		switch atomic.LoadInt64(&bVerdict) {
+		case 1:
+			r.AddObs("listing_failures_after_the_kill_found_in_the_error_list", 1)
+			if !has(failErr) {
+				r.Violate("error-lost", fmt.Sprintf("the listing error %v was in the error list while a callback was still running and is missing from Errors() = %v after Wait()", failErr, errs), wit)
+			}
+		case 2:
+			r.Violate("error-lost", fmt.Sprintf("the listing of %q failed with %v after the loop had been killed by a failing callback, while another callback was still running (Wait() had not returned); every producer goroutine has gone and Errors() = %v lacks the listing error", failPath, failErr, errs), wit)
+		default:
+			r.AddObs("late_listing_runs_without_verdict", 1)
+		}
+	} else if scopeFault {
 		judgeScopeFault(r, rec, cfg, wantF, wantD, errs, atomic.LoadInt64(&scopeFired) == 1)
 	} else {
 		judge(r, rec, cfg, wantF, wantD, errs, failErr, failPath)
@@ -609,6 +716,17 @@ func judgeScopeFault(r *sup.CaseResult, rec *recorder, cfg runCfg, wantF, wantD 
 	r.AddObs("callbacks", int64(len(gotF)+len(gotD)))
 	r.AddObs("runs", 1)
 	r.Nontrivial = len(wantF)+len(wantD) > 0
+}
+
+// producersGone: no goroutine of a fsloop producer exists in the process (a stop-the-world fact).
+func producersGone() bool {
+	buf := make([]byte, 8<<20)
+	for _, blk := range strings.Split(string(buf[:runtime.Stack(buf, true)]), "\n\n") {
+		if strings.Contains(blk, "fsloop.(*Producer)") {
+			return false
+		}
+	}
+	return true
 }
 
 func judge(r *sup.CaseResult, rec *recorder, cfg runCfg, wantF, wantD map[string]bool, errs []error, failErr error, failPath string) {
@@ -906,6 +1024,13 @@ func genCfg(rng *rand.Rand, idx int) runCfg {
 	}
 	if idx%397 == 31 {
 		cfg.Shape = "wide2300"
+	}
+	if idx%29 == 11 && cfg.Shape == "random" {
+		// two failures in a fixed order: a callback fails first (the loop is killed), then a listing
+		// that was under way fails, while another callback is still running (so Wait cannot have
+		// returned): both errors belong to the loop's error list
+		cfg.Fault, cfg.OnFile, cfg.OnDir, cfg.UseFileF, cfg.UseDirF, cfg.C = "cb-then-readdir", true, false, false, false, 2+rng.Intn(3)
+		return cfg
 	}
 	if idx%23 == 7 && !strings.HasPrefix(cfg.Shape, "wide") {
 		// the loop is bound to an event scope and a kill / error event fires on that scope from
